@@ -79,7 +79,7 @@ MUT = (10, 11, 20, 21, 22, 30, 40, 41, 50)
 def op_toks(o):
     c = o['op']
     if c == 40:
-        return [40, o['dim'], o['q'], o['metric'], len(o['json'])] + list(o['json'])
+        return [40, o['dim'], o['q'], o['metric'], o.get('exp', 0), len(o['json'])] + list(o['json'])
     if c == 41:
         return [41]
     if c == 10:
@@ -321,11 +321,45 @@ def data_path(tag):
     return os.path.join(d, 'c%s_%05d.dat' % (tag, os.getpid() % 100000))
 
 
+def strip_growth_lines(g):
+    """lines '52 n' carry the growth amount of an interrupted operation (op 50); they are not part of the comparison"""
+    return [l for l in g if not l.startswith('52 ')]
+
+
+def with_observed_growth(ops, g):
+    """the amount by which the file grows is an oracle argument of the model (any amount >= the record): feed the model
+    the amounts the implementation chose, so that another growth policy is not a divergence (the chain oracle still
+    checks that the file grows only when nothing fits and by at least the record)"""
+    own = line_owner(ops)
+    out = [dict(o) for o in ops]
+    # interrupted operations: the k-th '52 n' line belongs to the k-th op 50
+    grown = [int(l.split()[1]) for l in g if l.startswith('52 ')]
+    k = 0
+    for o in out:
+        if o['op'] == 50:
+            if k < len(grown) and grown[k] > 0:
+                o['inner'] = dict(o['inner'], exp=grown[k])
+            k += 1
+    g = strip_growth_lines(g)
+    for i, ln in enumerate(g):
+        f = ln.split()
+        if i < len(own) and len(f) > 3 and f[0] in ('10', '20', '21', '40') and f[1] == '0':
+            try:
+                n = int(f[2])
+                steps = [f[3 + 3 * k:6 + 3 * k] for k in range(n)]
+            except ValueError:
+                continue
+            for st in steps:
+                if len(st) == 3 and st[0] == '1' and out[own[i]]['op'] == int(f[0]):
+                    out[own[i]]['exp'] = int(st[1])
+    return out
+
+
 def run_both(ops, path):
     text = render(ops)
     g, grc, gerr = run_harness(['store', path], text)
-    m, mrc, merr = run_oracle(text)
-    return text, g, grc, gerr, m
+    m, mrc, merr = run_oracle(render(with_observed_growth(ops, g)))
+    return text, strip_growth_lines(g), grc, gerr, m
 
 
 def first_diff(g, m):
